@@ -570,6 +570,63 @@ var specChange = pbt.Register(pbt.Spec[ChangeCase]{
 		if r := check("first encoding"); r != nil {
 			return r
 		}
+		// looking at a value is not changing it: after every node was compared with its counterpart in an equal copy and in
+		// another value (Equals, CompareTo in both directions), the value encodes to the same bytes as before
+		lookAt := func(when string) *pbt.Result {
+			before := encodeGolib(g)
+			var mine, theirs, others []value.Value
+			nodes(g, &mine)
+			nodes(gval.ToGolib(c.V), &theirs)
+			nodes(gval.ToGolib(&ref.V{T: ref.TMap, K: []string{gen.Hex([]byte("zz")), gen.Hex([]byte("aa")), gen.Hex([]byte("mm"))}, L: []*ref.V{{T: ref.TNull}, {T: ref.TNull}, {T: ref.TNull}}}), &others)
+			for i, n := range mine {
+				func() {
+					defer func() { recover() }() // the laws of comparison are C20's business
+					o := others[i%len(others)]
+					if i < len(theirs) {
+						n.Equals(theirs[i])
+						n.CompareTo(theirs[i])
+						theirs[i].CompareTo(n)
+					}
+					n.CompareTo(o)
+					o.CompareTo(n)
+					n.Equals(o)
+				}()
+			}
+			if after := encodeGolib(g); !bytes.Equal(before, after) {
+				k := 0
+				for k < len(before) && k < len(after) && before[k] == after[k] {
+					k++
+				}
+				return pbt.Fail("%s: the value was only compared (Equals / CompareTo on each of its %d nodes) and encodes differently afterwards, from offset %d on (%d vs %d bytes; before …%x, after …%x)", when, len(mine), k, len(before), len(after), tailAt(before, k), tailAt(after, k))
+			}
+			return nil
+		}
+		if r := lookAt("after the first encoding"); r != nil {
+			return r
+		}
+		// the same object twice in one message: as two elements of a list, and written twice to one output
+		{
+			one := encodeGolib(g)
+			l := value.NewListValue(nil)
+			l.Add(g)
+			l.Add(value.NewDecimalValue(7))
+			l.Add(g)
+			wl := ref.NewW()
+			wl.U8(ref.TList)
+			wl.Dec(3)
+			wl.Raw(one)
+			wl.Raw(ref.ValueBytes(&ref.V{T: ref.TDecimal, I: 7}))
+			wl.Raw(one)
+			if got := encodeGolib(l); !bytes.Equal(got, wl.B) {
+				return pbt.Fail("a list holding the same value object twice (with a number in between) encodes to %d bytes; twice the value's own encoding (%d bytes each) inside the list frame makes %d", len(got), len(one), len(wl.B))
+			}
+			o := wio.NewDataOutputX()
+			value.WriteValue(o, g)
+			value.WriteValue(o, g)
+			if got := o.ToByteArray(); !bytes.Equal(got, append(append([]byte(nil), one...), one...)) {
+				return pbt.Fail("the same value written twice to one output gives %d bytes, not twice its %d-byte encoding", len(got), len(one))
+			}
+		}
 		hist := ""
 		for i, st := range c.Steps {
 			var ns []value.Value
